@@ -235,14 +235,18 @@ func runC20(w *mc.Worker) {
 		if flag {
 			common = append(common, "--"+interpreter.ExperimentalOverdraftFunctionFeatureFlag)
 		}
-		chans := []struct {
+		type chanOut struct {
 			name string
 			po   procOut
-		}{
-			{"--raw", runProc(bin, "", append(append([]string{}, common...), "--raw", string(raw))...)},
+		}
+		var chans []chanOut
+		if len(raw) < 100000 { // a single command-line argument cannot be larger than that
+			chans = append(chans, chanOut{"--raw", runProc(bin, "", append(append([]string{}, common...), "--raw", string(raw))...)})
+		}
+		chans = append(chans, []chanOut{
 			{"--stdin", runProc(bin, string(raw), append(append([]string{}, common...), "--stdin")...)},
 			{"files", runProc(bin, "", append(append([]string{}, common...), write("r.num", text), "-v", write("v.json", string(vj)), "-b", write("b.json", string(bj)), "-m", write("m.json", string(mj)))...)},
-		}
+		}...)
 		expect := "parse-error"
 		if parsedOK {
 			expect = outSig(lib)
@@ -336,6 +340,49 @@ func runC20(w *mc.Worker) {
 			}
 			w.Owned()
 			w.Inner(0, func(in *mc.Explorer) { runOne(text, nil, sheets[0], nil, false) })
+		})
+	})
+	w.Stage("check-many-errors", "`numscript check` on files with exactly 1, 2, 255, 256, 257 and 512 error diagnostics (one undeclared variable per statement)", func() {
+		w.Outer("check-many-errors/n", 0, func(o *mc.Explorer) {
+			n := []int{1, 2, 255, 256, 257, 512}[o.Choose(6)]
+			if !w.Mine(fmt.Sprint("many-errors", n)) {
+				return
+			}
+			w.Owned()
+			var sb strings.Builder
+			for i := 0; i < n; i++ {
+				fmt.Fprintf(&sb, "send [USD 1] (source = $u%d destination = @x)\n", i)
+			}
+			w.Inner(0, func(in *mc.Explorer) { checkOne(sb.String()) })
+		})
+	})
+	w.Stage("run-odd-characters", "`numscript run` on a script writing an asset variable and a monetary variable to transaction and account metadata x 9 asset texts (control characters, DEL, quote, backslash, line separator, non-ASCII) x 3 channels", func() {
+		text := "vars { asset $as monetary $m }\nset_tx_meta ( \"k\" , [ $as 7 ] )\nset_tx_meta ( \"j\" , $m )\nset_account_meta ( @a , \"k\" , [ $as 7 ] )\nset_account_meta ( @a , \"as\" , $as )\n"
+		assets := []string{"USD", "A\aB", "A\x7fB", "A\x01", "A\"B", "A\\B", "Aé€B", "A\u2028B", "A\tB"}
+		w.Outer("run-odd-characters/asset", 0, func(o *mc.Explorer) {
+			as := assets[o.Choose(len(assets))]
+			if !w.Mine("odd" + as) {
+				return
+			}
+			w.Owned()
+			w.Inner(0, func(in *mc.Explorer) {
+				runOne(text, map[string]string{"as": as, "m": as + " 3"}, sheets[0], nil, false)
+			})
+		})
+	})
+	w.Stage("run-big-input", "`numscript run` with 60000 accounts in the balances (a JSON input of about 2 MB) through --stdin and the file flags", func() {
+		w.Outer("run-big-input/one", 0, func(o *mc.Explorer) {
+			if !w.Mine("big-input") {
+				return
+			}
+			w.Owned()
+			bal := env.Bal{}
+			for i := 0; i < 60000; i++ {
+				bal[fmt.Sprintf("acc:%06d", i)] = map[string]*big.Int{"USD": bi(int64(10 + i%7))}
+			}
+			w.Inner(0, func(in *mc.Explorer) {
+				runOne("send [USD 5] (source = @acc:059999 destination = @x)\n", nil, bal, nil, false)
+			})
 		})
 	})
 	w.Stage("run-bases", "`numscript run` on the 9 variable-carrying base scripts of C12 with <= 1 deviation (variable values incl. malformed and > 2^64, missing variables, sheets, metadata) x 3 channels, plus syntactically broken scripts", func() {
